@@ -252,6 +252,8 @@ def main(run):
         _main(run, run.rng, so_path)
     finally:
         shutil.rmtree(extdir, ignore_errors=True)
+        if not run.disagreements and not run.broken:
+            shutil.rmtree(run.rundir, ignore_errors=True)     # hidden .aux files of the shards etc.
 
 
 def _main(run, rng, so_path):
@@ -484,7 +486,7 @@ def _main(run, rng, so_path):
             hv_job(pts, ref, "exhaustive", measure_ie(pts, ref))
 
     # random structured sets
-    for it in range(run.scale(600, 6000)):
+    for it in range(run.scale(600, 4500)):
         d = rng.randint(1, 7)
         big = rng.random() < 0.25
         n = rng.randint(6, 12) if big else rng.randint(1, 6)
@@ -501,7 +503,7 @@ def _main(run, rng, so_path):
             hv_set(pts, ref, style + "/max", maxperm)
 
     # stress: tie-heavy lists in 4..7 dimensions, small coordinate range, with and without slack to the reference
-    for it in range(run.scale(12000, 150000)):
+    for it in range(run.scale(12000, 120000)):
         d = rng.choice([4, 5, 6, 6, 7, 7, 7])
         n = rng.randint(3, 7)
         k = rng.choice([1, 2, 2, 3, 3])
